@@ -169,9 +169,10 @@ pub fn observe_small(r: &mut RLN, d: usize, it: &mut Interner) -> Value {
         Err(_) => json!(-1),
     };
     let mut proofs = Vec::new();
-    for i in 0..cap {
+    for i in crate::util::proof_order(cap) {
         proofs.push(obs_proof(r, i, leaf_vals[i], it));
     }
+    proofs.sort_by_key(|p| p["i"].as_u64().unwrap());
     o["proofs"] = json!(proofs);
     // get_proof beyond the capacity: recorded separately because it may crash (C12/C11 look at that)
     let mut mb = Vec::new();
